@@ -800,7 +800,7 @@ pub fn c14_scenario(ch: &mut Chooser, thorough: bool) -> Exec {
     }
     // an earlier override (always before the run), so that sequences of two settings occur
     let (pkind, pval): (usize, u64) = if long { (0, 0) } else { *ch.of("earlier_override(none|link fixed 3|link max 6|global max 7)", &[(0usize, 0u64), (1, 3), (2, 6), (3, 7)]) };
-    let curve = !long && ch.dev_flag("latency_curve_set_at_run_time");
+    let curve = !long && okind == 0 && pkind == 0 && ch.flag("latency_curve_set_at_run_time");
     let apply_kind = |sim: &Sim, okind: usize, oval: u64, glob: &mut (u64, u64), linkcfg: &mut Option<(u64, u64)>| {
         let d = Duration::from_millis(oval);
         match okind {
